@@ -205,7 +205,13 @@ func (t *Dense) Clone() interface{} {
 		retVal.e = t.e
 		retVal.oe = t.oe
 		retVal.flag = t.flag
-		retVal.makeArray(t.Len())
+		n := t.Len()
+		if n > 1 && t.Size() == 1 && len(t.mask) == 0 {
+			// a one-element view with a longer storage window (a slice cut from a stepped slice): the copy holds the element,
+			// not the window - a two-slot copy of one element is taken for a vector by the scalar/vector kernels
+			n = 1
+		}
+		retVal.makeArray(n)
 
 		if !t.old.IsZero() {
 			retVal.old = t.old.Clone()
